@@ -106,12 +106,21 @@ def edge_to_spec(e):
     if isinstance(e, EdgeLandmark):
         s["offset"] = pose_to_spec(e.offset)
         s["offset_id"] = e.offset_id
+    dt = getattr(e.information, "dtype", None)
+    if dt is not None and dt == np.float32:
+        s["info_dtype"] = "float32"
+    elif dt is not None and dt.kind in "iu":
+        s["info_dtype"] = "int"
     return s
 
 
 def edge_from_spec(s):
     cls = EDGE_KINDS[s["kind"]]
     info = np.array(xfm(s["information"]), dtype=np.float64)
+    if s.get("info_dtype") == "float32":
+        info = info.astype(np.float32)  # the spec holds values that are exactly representable in single precision
+    elif s.get("info_dtype") == "int":
+        info = info.astype(np.int64)
     est = estimate_from_spec(s["estimate"])
     if issubclass(cls, EdgeLandmark):
         return cls(list(s["ids"]), info, est, pose_from_spec(s.get("offset")), s.get("offset_id"))
